@@ -14,7 +14,7 @@ PROPERTY = "C16"
 LEVEL = "model_checking"
 RULE = (
     "states = histories over {write(cfg) for cfg in the writer alphabet} u {replace index, edit the last / the first index sample in place, shift the whole index by 0.01, insert "
-    "a curve at position 0, edit another curve, edit a header value, edit WRAP} from 22 roots (scratch LASFiles with "
+    "a curve at position 0, edit another curve, edit a header value, edit WRAP} from 24 roots (scratch LASFiles with "
     "increasing / decreasing / irregular / single-sample / two-sample index, with and without units; files read with STOP agreeing "
     "or not, STRT disagreeing, 1.2, wrapped, empty-valued items, text curve, duplicate mnemonics, depths around 3000, STRT/STOP/STEP units disagreeing, read with mnemonic_case='lower', a declared STEP of 0 over a regular and an irregular index); on every write "
     "transition: (a) frame - full snapshot before/after differs only inside the statement's allow-list, VERS untouched; "
@@ -73,6 +73,11 @@ ROOTS = {
     "read-deep": file_text(deep=True), "read-mixed-units": file_text(mixed_units=True),
     "readlower-12-stop-wrong": file_text(vers="1.2", stop="9"), "readlower-20": file_text(),
     # a declared STEP of 0 (the LAS 2.0 convention for "variable step"), with a regular and with an irregular index
+    # three same-named curves of which the middle one is deleted after reading (session names GR:1, GR:3: a gap)
+    "read-dup3-gap": file_text().replace("GR.GAPI : gamma\n", "GR.GAPI : gamma\nGR.GAPI : gamma two\nGR.GAPI : gamma three\n").replace(
+        "1.0 10.5\n2.0 -999.25\n3.0 30.5\n", "1.0 10.5 11.5 12.5\n2.0 -999.25 21.5 22.5\n3.0 30.5 31.5 32.5\n"),
+    # a file without a NULL item
+    "read-no-null": file_text().replace("NULL. -999.25 : null\n", ""),
     "read-step0": file_text(step="0"), "read-step0-irr-stop-wrong": file_text(step="0.0", stop="9", irregular=True),
 }
 
@@ -118,6 +123,8 @@ def make_root(name):
         las.append_curve("GR", np.array([1.0]))
         return las, True
     las = lasio.read(ROOTS[name], mnemonic_case="lower" if name.startswith("readlower") else "upper")
+    if name == "read-dup3-gap":
+        las.delete_curve(mnemonic="GR:2")
     dirty = "stop-wrong" in name
     return las, dirty
 
@@ -307,6 +314,11 @@ def step_check(root, tier, history, op):
     try:
         text = do_write(las, cfg)
     except Exception as e:
+        if isinstance(e, KeyError) and "NULL" in str(e) and "NULL" not in [i.original_mnemonic.upper() for i in las.well]:
+            # no NULL item and a NaN to emit: what to write is not defined by any statement; the object must be left as it was
+            if snapshot(las)["curves"] != before["curves"]:
+                return [viol("failed-write-changed-data", root, tier, history, op, "curve data untouched by a write that raises", "changed")], None
+            return [], None
         return [viol("write-raises", root, tier, history, op, "write succeeds", "%s: %s" % (type(e).__name__, str(e)[:150]))], None
     after = snapshot(las)
     # (a) frame
